@@ -57,3 +57,14 @@ func VerifNewRunningWriter(e *actor.Engine, addr string, stream DRPCRemote_Recei
 	w.rawconn = conn
 	return &VerifWriter{streamWriter: w, Panicked: panicked}
 }
+
+// VerifReader is the one stream reader of a node: a Remote has a single streamReader, and every
+// inbound stream is served by a Receive call on it, each on a goroutine of its own.
+type VerifReader struct{ r *streamReader }
+
+func VerifNewReader(e *actor.Engine) *VerifReader {
+	return &VerifReader{r: newStreamReader(&Remote{engine: e})}
+}
+
+func (v *VerifReader) Receive(stream DRPCRemote_ReceiveStream) error { return v.r.Receive(stream) }
+
